@@ -18,7 +18,7 @@ from drivers import http_parse as drv
 
 OUT = tlc.OUT
 
-AS_IS_DEV = ["CapWholeBlock", "UnboundedChunkLine"]   # StripPyWs, DroppedNotCounted, UnboundedTrailers: fixed in /repo
+AS_IS_DEV = ["UnboundedChunkLine"]  # CapWholeBlock fixed (733fedc);   # StripPyWs, DroppedNotCounted, UnboundedTrailers: fixed in /repo
 
 HREJECT = {"CLbad", "TEchunkedgzip", "TEchunked2", "TEunknown", "TEnontoken", "TEpyws", "ObsFold",
            "WsColon", "BadName", "NulVal", "NoColon"}
@@ -367,6 +367,11 @@ def limit_record(ctx, cfgkw, rllen, fields, cuts_kind, rng, body=b"", proxy=Fals
         cuts = list(range(1, len(data)))
     elif cuts_kind == "8k":
         cuts = list(range(8192, len(data), 8192))
+    elif cuts_kind == "mid":
+        # the first read ends inside the head; the second brings the rest of it plus what follows
+        cuts = [max(1, (data.find(b"\r\n\r\n") + 2) // 2)]
+    elif cuts_kind == "eoh-1":
+        cuts = [data.find(b"\r\n\r\n") + 3]
     else:
         cuts = rand_cuts(rng, len(data))
     cfg = drv.make_cfg(**cfgkw)
@@ -516,8 +521,12 @@ def c12(ctx):
                     add(*limit_record(ctx, {"limit_request_field_size": S}, 14, fields, ck, rng))
     # combined small limits, followed by a body and a pipelined request in the same reads
     for (L, F, S) in [(64, 2, 32), (0, 1, 0), (20, 3, 16)] + ([] if ctx.quick else [(100, 5, 50), (0, 100, 0)]):
+        for ck in ("whole", "mid", "eoh-1", "rand"):
+            # no header field at all, pipelined requests right behind
+            add(*limit_record(ctx, {"limit_request_line": L, "limit_request_fields": F, "limit_request_field_size": S},
+                              14, [], ck, rng, body=b"GET /2 HTTP/1.1\r\n\r\n" * 20))
         for nf in (1, F):
-            for ck in cutkinds[:3]:
+            for ck in cutkinds[:3] + ["mid", "eoh-1"]:
                 body = b"b" * 300
                 fields = [("plain", min(S, 30) - 2 if S else 20)] * (nf - 1) + [("cl", 19)]
                 if S and 19 + 2 > S:
